@@ -106,6 +106,10 @@ inductive CSt where
   | clientClosed
   deriving Repr, DecidableEq
 
+def CSt.isServerClosing : CSt → Bool
+  | .serverClosing _ _ => true
+  | _ => false
+
 /-- Readiness node of a mio-extras channel receiver registered with the poll (A3). -/
 structure Src where
   pending : Nat := 0        -- mio-extras `pending` (messages, +1 phantom once the last sender is gone)
@@ -804,8 +808,9 @@ def handleEvent (c : Conn) (t : Token) : Conn × Bytes × Option Err :=
       if r then
         let (c2, e2) := readFromStream c1
         -- once the server has confirmed the client's close, a failing read is no longer an
-        -- error (the server is free to hang up right away)
-        if !c2.legacy && c2.st = .clientClosed then (c2, wrote, none) else (c2, wrote, e2)
+        -- error (the server is free to hang up right away); nor once the server's own close has
+        -- been processed (fix D19: a hang-up behind it does not replace the server's reason)
+        if !c2.legacy && (c2.st = .clientClosed || c2.st.isServerClosing) then (c2, wrote, none) else (c2, wrote, e2)
       else (c1, wrote, none)
   | .heartbeat => (c, [], none)     -- no timers are started in this machine (see M9 / C17)
   | .setBlocked =>
